@@ -1130,6 +1130,22 @@ JANET_CORE_FN(cfun_channel_pop,
     janet_await();
 }
 
+/* Check if a channel has a pending reader that is still waiting on it.
+ * Stale readers at the head of the queue are discarded. */
+static int janet_chan_has_live_reader(JanetChannel *channel) {
+    JanetQueue *q = &channel->read_pending;
+    if (janet_chan_is_threaded(channel)) {
+        /* don't dereference fiber from another thread */
+        return q->head != q->tail;
+    }
+    while (q->head != q->tail) {
+        JanetChannelPending *reader = ((JanetChannelPending *) q->data) + q->head;
+        if (reader->sched_id == reader->fiber->sched_id) return 1;
+        q->head = q->head + 1 < q->capacity ? q->head + 1 : 0;
+    }
+    return 0;
+}
+
 static void chan_unlock_args(const Janet *argv, int32_t n) {
     for (int32_t i = 0; i < n; i++) {
         int32_t len;
@@ -1175,7 +1191,7 @@ JANET_CORE_FN(cfun_channel_choice,
                 chan_unlock_args(argv, i);
                 return make_close_result(chan);
             }
-            if (janet_q_count(&chan->items) < chan->limit) {
+            if (janet_q_count(&chan->items) < chan->limit || janet_chan_has_live_reader(chan)) {
                 janet_channel_push_with_lock(chan, data[1], 1);
                 chan_unlock_args(argv, i);
                 return make_write_result(chan);
